@@ -205,8 +205,6 @@ func (p *Parser) CreateBuilder() *builder.FunctionBuilder {
 // The resulting code can be used as a starting point for the code generation process.
 // GenerateBaseCode returns the resulting code as a string, or an error if the generation process fails.
 func (p *Parser) GenerateBaseCode() (code string, err error) {
-	util.RemoveMatchComments(p.file, reGoBuildGen)
-
 	// Remove doc comment of the interface.
 	// And also find the range pos of the interface in the code.
 	for _, entry := range p.intfEntries {
@@ -239,6 +237,10 @@ func (p *Parser) GenerateBaseCode() (code string, err error) {
 		util.InsertComment(p.file, entry.marker, minPos)
 		util.InsertComment(p.file, entry.marker, maxPos)
 	}
+
+	// The directive filter moves comment lines (see util.ExtractMatchComments): it runs when nothing
+	// looks nodes up by position any more.
+	util.RemoveMatchComments(p.file, reGoBuildGen)
 
 	var buf bytes.Buffer
 	err = printer.Fprint(&buf, p.fset, p.file)
